@@ -563,6 +563,37 @@ class World:
         sh('git push -q origin %s' % wname, u)
         self.observe('env', act=dict(a='manual_commit', pr=pr_id, w=wname, merge=merge))
 
+    def resolve_conflict(self, pr_id, mode, wname=None, dst=None, prev=None):
+        """What the `Conflict` message asks the user to do.  mode 'origin': merge the destination into the
+        source branch; mode 'wbranch': create / update the integration branch from its destination, merge
+        the previous integration branch (or the source) into it, resolving conflicts by taking both
+        sides' content concatenated."""
+        p = self.pr(pr_id)
+        u = self.user
+        sh('git fetch -q --prune origin', u)
+
+        def merge(what):
+            out = sh('git merge --no-edit %s' % what, u, check=False)
+            if 'CONFLICT' in out or 'conflict' in out:
+                files = sh('git diff --name-only --diff-filter=U', u).split()
+                for f in files:
+                    self.fcount += 1
+                    sh('echo resolved_%d > %s; git add %s' % (self.fcount, f, f), u)
+                sh('git commit -q --no-edit', u)
+        if mode == 'origin':
+            sh('git checkout -q -B %s origin/%s' % (p.src_branch, p.src_branch), u)
+            merge('origin/%s' % p.dst_branch)
+            sh('git push -q origin HEAD:%s' % p.src_branch, u)
+        else:
+            if self.tip(wname) is None:
+                sh('git checkout -q -B %s origin/%s' % (wname, dst), u)
+            else:
+                sh('git checkout -q -B %s origin/%s' % (wname, wname), u)
+                merge('origin/%s' % dst)
+            merge('origin/%s' % prev)
+            sh('git push -q origin HEAD:%s' % wname, u)
+        self.observe('env', act=dict(a='resolve_conflict', pr=pr_id, mode=mode, w=wname or ''))
+
     def approve(self, pr_id, user):
         self.pr(pr_id, user).approve()
         self.observe('env', act=dict(a='approve', pr=pr_id, user=user))
